@@ -118,6 +118,7 @@ type Exec struct {
 	activeGhosts  []string
 	frameGhosts   []string
 	inlineCount   map[string]int
+	exemptions    []string
 	reachBackend  map[string]bool
 	reachMutating map[string]bool
 	maxOps        int
